@@ -259,6 +259,8 @@ class FnSpec:
         self.ats = []
         self.closures = {}
         self.desugars = []
+        self.default_from = None
+        self.optional = False
         self.attr = None
         self.line = 0
 
@@ -340,7 +342,9 @@ def parse_vspec(path):
             fs.cfg = d.get('cfg')
             fs.attr = d.get('attr')
             fs.nth = int(d['nth']) if 'nth' in d else None
+            fs.default_from = d.get('default_from')
             fs.external_body = 'external_body' in flags
+            fs.optional = 'optional' in flags
             i += 1
             while i < len(lines) and lines[i].strip() != '@endfn':
                 s2 = lines[i].strip()
@@ -966,7 +970,20 @@ class Extractor:
                         sf = self.sf(fs.file)
                         items = sf.items
                         qual = '%s::%s' % (os.path.splitext(os.path.basename(fs.file))[0], fs.name)
-                    it = _select(items, 'fn', fs.name, fs.cfg, fs.nth, what='in ' + sf.rel)
+                    if fs.default_from and not [x for x in items if x.kind == 'fn' and x.name == fs.name]:
+                        # A9: a method absent from a trait impl IS the trait's provided method (Rust semantics)
+                        tfile, _, tname = fs.default_from.partition('::')
+                        tsf = self.sf(tfile)
+                        tr = _select(tsf.items, 'trait', tname, what='in ' + tfile)
+                        it = _select(tsf.inner_items(tr), 'fn', fs.name, what='provided method of trait %s' % tname)
+                        res.drops.append('A9 %s: not overridden in the impl; body of the provided method %s::%s (%s) is used'
+                                         % (qual, tname, fs.name, tfile))
+                        sf = tsf
+                    elif fs.optional and not [x for x in items if x.kind == 'fn' and x.name == fs.name]:
+                        res.drops.append('optional helper %s is not present in the working tree: skipped' % qual)
+                        continue
+                    else:
+                        it = _select(items, 'fn', fs.name, fs.cfg, fs.nth, what='in ' + sf.rel)
                     self.emit_fn(out, res, sf, it, fs, qual, canary)
                 elif nd[0] in ('struct', 'enum'):
                     self.emit_adt(out, res, nd[0], nd[1], None)
